@@ -476,7 +476,7 @@ pub fn unary_catalogue() -> Vec<Entry> {
         e(LaguerreRsi, true, 1, false, false),
         e(SuperSmoother, true, 1, false, false),
         e(Roofing, true, 2, false, false),
-        e(CyberCycle, true, 6, false, false),
+        e(CyberCycle, true, 1, false, false),
         e(TrendFlex, true, 3, false, false),
         e(ReFlex, true, 3, false, false),
         e(WelfordRolling, false, 1, false, false),
